@@ -94,6 +94,30 @@ def worker():
             vals = sorted({e[0] for e in encs} | {int(gor.convert(NoneGridObject())[0])})
             if vals != list(range(len(vals))):
                 out.append({'signature': 'encoding/compact-has-gaps', 'what': f'type channel {vals} with user classes'})
+    # 3b. a user kind derived from Floor with a status of its own: two instances in one grid are two cells
+    try:
+        from gym_gridverse.state import State
+        from gym_gridverse.agent import Agent
+        from gym_gridverse.geometry import Orientation, Position as _P
+        from gym_gridverse.grid import Grid as _G
+
+        def _ice_init(self, broken=False):
+            self.state_index = int(broken)
+
+        Ice = type('Ice', (Floor,), {'__init__': _ice_init, 'num_states': classmethod(lambda cls: 2),
+                                     '__repr__': lambda self: f'Ice({self.state_index})'})
+        sp2 = StateSpace(Shape(2, 2), [Floor, Ice], [])
+        st2 = State(_G([[Ice(False), Ice(True)], [Floor(), Ice(True)]]), Agent(_P(1, 0), Orientation.F))
+        for enc in ('default', 'no-overlap', 'compact'):
+            rep2 = make_state_representation(enc, sp2)
+            gor2 = rep2.representations['item'].grid_object_representation
+            arr = rep2.convert(st2)['grid']
+            for (y_, x_) in ((0, 0), (0, 1), (1, 0), (1, 1)):
+                if [int(v) for v in arr[y_, x_]] != [int(v) for v in gor2.convert(st2.grid[y_, x_])]:
+                    out.append({'signature': 'representation/not-positional', 'what': f'{enc}: cell {(y_, x_)} of a grid holding two Ice(Floor) objects of different status is {list(arr[y_, x_])}'})
+                    break
+    except Exception as e:
+        out.append({'signature': 'representation/raises-with-user-kinds', 'what': f'{type(e).__name__}: {e}'})
     # 4. a shipped configuration still builds the environment it describes
     try:
         from harness.oracles import build_env, shipped_files
